@@ -172,3 +172,72 @@ Example users_after_drop :
   users_seen 1 (ULogout 5) = [Some None; Some None; Some (Some (5, 0)%N); None; Some None; Some (Some (5, 0)%N)] /\
   users_seen 0 (ULogout 5) = [Some None; Some None; Some (Some (5, 0)%N); None; Some None; Some (Some (5, 0)%N)].
 Proof. vm_compute. repeat split. Qed.
+
+(* ---- the size clause of own_cached: sufficient, not necessary ---- *)
+
+(* cache size 3: both listed IDs are cached, nothing has to be loaded: own_cached
+   holds (the listed IDs that are cached are not counted) *)
+Example own_cached_3 :
+  let s := fst (at_handler 3) in
+  exists ob, own_cached s 2 ob (listed s 5) /\ In (o_id ob) (listed s 5) /\
+    length (cache s) = 3 /\ uncached s (listed s 5) = [] /\ c_maxcache (conf s) = 3%Z.
+Proof.
+  cbv zeta. eexists. split.
+  - split; [vm_compute; reflexivity|]. split; [vm_compute; reflexivity|].
+    split; [vm_compute; discriminate|]. split; [vm_compute; discriminate|]. right. vm_compute. discriminate.
+  - vm_compute. repeat split; auto.
+Qed.
+
+(* cache size 2: the first browser's session has to be loaded into a full cache,
+   so the size clause fails - but the entry evicted happens to be another one
+   (the handler's own was touched last), and the outcome is that of (1) *)
+Example own_cached_gap_2 :
+  let s := fst (at_handler 2) in
+  snd (at_handler 2) = Some 2 /\ c_maxcache (conf s) = 2%Z /\ length (cache s) = 2 /\
+  uncached s (listed s 5) = [KGen 1] /\
+  ~ (c_maxcache (conf s) < 0 \/ Z.of_nat (length (cache s)) + Z.of_nat (length (uncached s (listed s 5))) <= c_maxcache (conf s))%Z /\
+  let '(s', rs, cks, mid) := hu_tail s 2 true (ULogout 5) postH in
+  option_map (fun x => r_user (snd x)) mid = Some None /\
+  map (fun kr => (fst kr, r_user (snd kr))) (store s') = [(KGen 0, None); (KGen 1, None); (KGen 2, None); (KGen 3, None)].
+Proof.
+  cbv zeta. split; [vm_compute; reflexivity|]. split; [vm_compute; reflexivity|]. split; [vm_compute; reflexivity|].
+  split; [vm_compute; reflexivity|]. split.
+  - vm_compute. intros [H|H]; [discriminate H | apply H; reflexivity].
+  - vm_compute. split; reflexivity.
+Qed.
+
+(* ---- RefreshUser followed by key/value operations ---- *)
+
+Example hu_refresh_post_10 :
+  let '(s', rs, cks, mid) := hu_tail s10 2 true (URefresh (5%N, 9%N)) postH in
+  rs = [SOk; SOk; SVal (Some 2%N)] /\ option_map (fun x => r_user (snd x)) mid = Some (Some (5%N, 9%N)) /\
+  map (fun kr => (fst kr, r_user (snd kr))) (store s') =
+    [(KGen 0, None); (KGen 1, Some (5%N, 0%N)); (KGen 2, None); (KGen 3, Some (5%N, 0%N))] /\
+  option_map (fun ob => r_user (o_rec ob)) (hget s' 2) = Some (Some (5%N, 9%N)).
+Proof. vm_compute. repeat split. Qed.
+
+(* ---- a history with an earlier in-handler call ---- *)
+
+(* the two logins, then browser 1's request calls RefreshUser(5, object 7) from
+   its handler, then browser 2's request reaches its handler: the hypotheses of
+   hu_logout_hist hold there *)
+Definition lMix : list hstep := map HPlain hH ++ [HUser (rqh 1 [SSet 3 3]) (URefresh (5%N, 7%N)) [SSet 4 4]].
+
+Lemma lMix_ok : Forall ff_hstep lMix.
+Proof. repeat constructor. Qed.
+
+Definition sMix : st := Eval vm_compute in
+  let w := hu_reach (cH 10) lMix in
+  fst (fst (run_script (fire_due (fst (fst (start (req_s1 w rH) (req_q w rH))))) 2 true [SSet 1 1])).
+
+Example handler_at_mix : handler_at (hu_reach (cH 10) lMix) rH [SSet 1 1] sMix 2.
+Proof. do 4 eexists. split; [vm_compute; reflexivity|]. split; vm_compute; reflexivity. Qed.
+
+Example own_cached_mix :
+  exists ob, own_cached sMix 2 ob (listed sMix 5) /\ In (o_id ob) (listed sMix 5) /\ r_user (o_rec ob) = Some (5%N, 7%N).
+Proof.
+  eexists. split.
+  - split; [vm_compute; reflexivity|]. split; [vm_compute; reflexivity|].
+    split; [vm_compute; discriminate|]. split; [vm_compute; discriminate|]. right. vm_compute. discriminate.
+  - vm_compute. repeat split; auto.
+Qed.
